@@ -23,111 +23,145 @@ Open Scope N_scope.
 Theorem C16_tables :
   tables_ok gen_tables /\ tables_agree gen_tables iso_tables = true /\ names_agree = true /\ labels_agree = true.
 Proof. exact (conj gen_tables_ok (conj eq_refl (conj eq_refl eq_refl))). Qed.
+Print Assumptions C16_tables.
 
 (* ---------- per-type round trips ---------- *)
 
 Theorem C16_rt_SessionStatus : forall tb, tables_ok tb -> codec_rt any_P (c_session_status tb).
 Proof. exact (fun tb H => codec_rt_of_ok _ _ (ok_session_status tb H)). Qed.
+Print Assumptions C16_rt_SessionStatus.
 Theorem C16_rt_ResponseStatus : forall tb, tables_ok tb -> codec_rt any_P (c_response_status tb).
 Proof. exact (fun tb H => codec_rt_of_ok _ _ (ok_response_status tb H)). Qed.
+Print Assumptions C16_rt_ResponseStatus.
 Theorem C16_rt_DocumentErrorCode : forall tb, tables_ok tb -> codec_rt doc_error_code_wf (c_doc_error_code tb).
 Proof. exact (fun tb H => codec_rt_of_ok _ _ (ok_doc_error_code tb H)). Qed.
+Print Assumptions C16_rt_DocumentErrorCode.
 Theorem C16_rt_DigestAlgorithm : forall tb, tables_ok tb -> codec_rt any_P (c_digest_alg tb).
 Proof. exact (fun tb H => codec_rt_of_ok _ _ (ok_digest_alg tb H)). Qed.
+Print Assumptions C16_rt_DigestAlgorithm.
 Theorem C16_rt_CoseKey : forall tb, tables_ok tb -> codec_rt cose_key_wf (c_cose_key tb).
 Proof. exact (fun tb H => codec_rt_of_ok _ _ (ok_cose_key tb H)). Qed.
+Print Assumptions C16_rt_CoseKey.
 (* Tag24<T>, for any inner codec at all: the stored bytes are re-emitted verbatim *)
 Theorem C16_rt_Tag24 : forall (T : Type) (c : codec T), codec_rt (tag24_P c) (c_tag24 c).
 Proof. exact (fun T c => codec_rt_of_ok _ _ (ok_tag24 c)). Qed.
+Print Assumptions C16_rt_Tag24.
 (* ... and Tag24::new of a round-tripping value is such a consistent Tag24 *)
 Theorem C16_Tag24_new : forall (T : Type) (P : T -> Prop) (c : codec T) x,
   codec_ok P c -> P x -> blen (to_bytes c x) < two64 -> tag24_P c (tag24_new c x).
 Proof. exact (fun T P c x => tag24_new_P P c x). Qed.
+Print Assumptions C16_Tag24_new.
 (* BLE / NFC / Wi-Fi options inside their DeviceRetrievalMethod triple *)
 Theorem C16_rt_DeviceRetrievalMethod : forall tb, tables_ok tb -> codec_rt (method_wf tb) (c_method tb).
 Proof. exact (fun tb H => codec_rt_of_ok _ _ (ok_method tb H)). Qed.
+Print Assumptions C16_rt_DeviceRetrievalMethod.
 Theorem C16_rt_ServerRetrievalMethods : codec_rt server_wf c_server.
 Proof. exact (codec_rt_of_ok _ _ ok_server). Qed.
+Print Assumptions C16_rt_ServerRetrievalMethods.
 Theorem C16_rt_Security : forall tb, codec_rt (security_wf tb) (c_security tb).
 Proof. exact (fun tb => codec_rt_of_ok _ _ (ok_security tb)). Qed.
+Print Assumptions C16_rt_Security.
 (* every member in its domain; protocol_info (RFU) any well-formed CBOR value or absent *)
 Theorem C16_rt_DeviceEngagement : forall tb, tables_ok tb -> codec_rt (engagement_wf tb) (c_engagement tb).
 Proof. exact (fun tb H => codec_rt_of_ok _ _ (ok_engagement tb H)). Qed.
+Print Assumptions C16_rt_DeviceEngagement.
 Theorem C16_rt_SessionEstablishment : forall tb, codec_rt (session_establishment_wf tb) (c_session_establishment tb).
 Proof. exact (fun tb => codec_rt_of_ok _ _ (ok_session_establishment tb)). Qed.
+Print Assumptions C16_rt_SessionEstablishment.
 Theorem C16_rt_SessionData : forall tb, tables_ok tb -> codec_rt session_data_wf (c_session_data tb).
 Proof. exact (fun tb H => codec_rt_of_ok _ _ (ok_session_data tb H)). Qed.
+Print Assumptions C16_rt_SessionData.
 Theorem C16_rt_Handover : forall tb, tables_ok tb -> codec_rt handover_wf (c_handover tb).
 Proof. exact (fun tb H => codec_rt_of_ok _ _ (ok_handover tb H)). Qed.
+Print Assumptions C16_rt_Handover.
 Theorem C16_rt_SessionTranscript : forall tb, tables_ok tb -> codec_rt (session_transcript_wf tb) (c_session_transcript tb).
 Proof. exact (fun tb H => codec_rt_of_ok _ _ (ok_session_transcript tb H)). Qed.
+Print Assumptions C16_rt_SessionTranscript.
 Theorem C16_rt_ItemsRequest : codec_rt items_request_wf c_items_request.
 Proof. exact (codec_rt_of_ok _ _ ok_items_request). Qed.
+Print Assumptions C16_rt_ItemsRequest.
 Theorem C16_rt_KeyAuthorizations : codec_rt key_authorizations_wf c_key_authorizations.
 Proof. exact (codec_rt_of_ok _ _ ok_key_authorizations). Qed.
+Print Assumptions C16_rt_KeyAuthorizations.
 Theorem C16_rt_DeviceKeyInfo : forall tb, tables_ok tb -> codec_rt device_key_info_wf (c_device_key_info tb).
 Proof. exact (fun tb H => codec_rt_of_ok _ _ (ok_device_key_info tb H)). Qed.
+Print Assumptions C16_rt_DeviceKeyInfo.
 Theorem C16_rt_DigestIds : codec_rt digest_ids_P c_digest_ids.
 Proof. exact (codec_rt_of_ok _ _ ok_digest_ids). Qed.
+Print Assumptions C16_rt_DigestIds.
 (* times already UTC without fraction: exact round trip *)
 Theorem C16_rt_ValidityInfo : codec_rt validity_exact c_validity_info.
 Proof. exact (codec_rt_of_ok _ _ ok_validity_info). Qed.
+Print Assumptions C16_rt_ValidityInfo.
 Theorem C16_rt_Mso : forall tb, tables_ok tb -> codec_rt mso_exact (c_mso tb).
 Proof. exact (fun tb H => codec_rt_of_ok _ _ (ok_mso tb H)). Qed.
+Print Assumptions C16_rt_Mso.
 Theorem C16_rt_IssuerSignedItem : codec_rt issuer_signed_item_wf c_issuer_signed_item.
 Proof. exact (codec_rt_of_ok _ _ ok_issuer_signed_item). Qed.
+Print Assumptions C16_rt_IssuerSignedItem.
 
 (* the types that embed COSE structures *)
 Theorem C16_rt_DocRequest : forall (sign1 : Type) (c_sign1 : codec sign1) (sign1_P : sign1 -> Prop),
   codec_ok sign1_P c_sign1 -> nonnull sign1_P c_sign1 ->
   codec_rt (doc_request_wf sign1_P) (c_doc_request c_sign1 sign1_P).
 Proof. exact (fun s c P H N => codec_rt_of_ok _ _ (ok_doc_request c P H N)). Qed.
+Print Assumptions C16_rt_DocRequest.
 Theorem C16_rt_DeviceRequest : forall (sign1 : Type) (c_sign1 : codec sign1) (sign1_P : sign1 -> Prop),
   codec_ok sign1_P c_sign1 -> nonnull sign1_P c_sign1 ->
   codec_rt (device_request_wf sign1_P) (c_device_request c_sign1 sign1_P).
 Proof. exact (fun s c P H N => codec_rt_of_ok _ _ (ok_device_request c P H N)). Qed.
+Print Assumptions C16_rt_DeviceRequest.
 Theorem C16_rt_IssuerSigned : forall (sign1 : Type) (c_sign1 : codec sign1) (sign1_P : sign1 -> Prop),
   codec_ok sign1_P c_sign1 ->
   codec_rt (issuer_signed_wf sign1_P) (c_issuer_signed c_sign1 sign1_P).
 Proof. exact (fun s c P H => codec_rt_of_ok _ _ (ok_issuer_signed c P H)). Qed.
+Print Assumptions C16_rt_IssuerSigned.
 Theorem C16_rt_DeviceAuth : forall tb, tables_ok tb ->
   forall (sign1 mac0 : Type) (c_sign1 : codec sign1) (c_mac0 : codec mac0) (sign1_P : sign1 -> Prop) (mac0_P : mac0 -> Prop),
   codec_ok sign1_P c_sign1 -> codec_ok mac0_P c_mac0 ->
   codec_rt (device_auth_wf sign1_P mac0_P) (c_device_auth tb c_sign1 c_mac0).
 Proof. exact (fun tb Ht s m c1 c0 P1 P0 H1 H0 => codec_rt_of_ok _ _ (@ok_device_auth tb Ht s m c1 c0 P1 P0 H1 H0)). Qed.
+Print Assumptions C16_rt_DeviceAuth.
 Theorem C16_rt_DeviceSigned : forall tb, tables_ok tb ->
   forall (sign1 mac0 : Type) (c_sign1 : codec sign1) (c_mac0 : codec mac0) (sign1_P : sign1 -> Prop) (mac0_P : mac0 -> Prop),
   codec_ok sign1_P c_sign1 -> codec_ok mac0_P c_mac0 ->
   codec_rt (device_signed_wf sign1_P mac0_P) (c_device_signed tb c_sign1 c_mac0 sign1_P mac0_P).
 Proof. exact (fun tb Ht s m c1 c0 P1 P0 H1 H0 => codec_rt_of_ok _ _ (@ok_device_signed tb Ht s m c1 c0 P1 P0 H1 H0)). Qed.
+Print Assumptions C16_rt_DeviceSigned.
 Theorem C16_rt_Document : forall tb, tables_ok tb ->
   forall (sign1 mac0 : Type) (c_sign1 : codec sign1) (c_mac0 : codec mac0) (sign1_P : sign1 -> Prop) (mac0_P : mac0 -> Prop),
   codec_ok sign1_P c_sign1 -> codec_ok mac0_P c_mac0 ->
   codec_rt (document_wf sign1_P mac0_P) (c_document tb c_sign1 c_mac0 sign1_P mac0_P).
 Proof. exact (fun tb Ht s m c1 c0 P1 P0 H1 H0 => codec_rt_of_ok _ _ (@ok_document tb Ht s m c1 c0 P1 P0 H1 H0)). Qed.
+Print Assumptions C16_rt_Document.
 Theorem C16_rt_DeviceResponse : forall tb, tables_ok tb ->
   forall (sign1 mac0 : Type) (c_sign1 : codec sign1) (c_mac0 : codec mac0) (sign1_P : sign1 -> Prop) (mac0_P : mac0 -> Prop),
   codec_ok sign1_P c_sign1 -> codec_ok mac0_P c_mac0 ->
   codec_rt (device_response_wf sign1_P mac0_P) (c_device_response tb c_sign1 c_mac0 sign1_P mac0_P).
 Proof. exact (fun tb Ht s m c1 c0 P1 P0 H1 H0 => codec_rt_of_ok _ _ (@ok_device_response tb Ht s m c1 c0 P1 P0 H1 H0)). Qed.
+Print Assumptions C16_rt_DeviceResponse.
 (* the stand-in for the COSE component that the extracted model runs does satisfy those hypotheses *)
 Theorem C16_cose_component_instance : forall tag,
   codec_ok (cose_shallow_P tag) (c_cose_shallow tag) /\ nonnull (cose_shallow_P tag) (c_cose_shallow tag).
 Proof. exact (fun tag => conj (ok_cose_shallow tag) (nn_cose_shallow tag)). Qed.
+Print Assumptions C16_cose_component_instance.
 
 (* ---------- byte level, for any round-tripping codec (instantiated by every theorem above) ---------- *)
 
 Theorem C16_decode_encode : forall (T : Type) (P : T -> Prop) (c : codec T) x,
   codec_ok P c -> P x -> blen (to_bytes c x) < two64 -> from_bytes c (to_bytes c x) = Some x.
 Proof. exact (fun T P c x => bytes_rt P c x). Qed.
+Print Assumptions C16_decode_encode.
 Theorem C16_fixed_point : forall (T : Type) (P : T -> Prop) (c : codec T) x,
   codec_ok P c -> P x -> blen (to_bytes c x) < two64 ->
   exists y, from_bytes c (to_bytes c x) = Some y /\ to_bytes c y = to_bytes c x.
 Proof. exact (fun T P c x => bytes_fixed_point P c x). Qed.
+Print Assumptions C16_fixed_point.
 (* from_slice ignores whatever follows the item *)
 Theorem C16_decode_ignores_trailing : forall (T : Type) (P : T -> Prop) (c : codec T) x r,
   codec_ok P c -> P x -> blen (to_bytes c x) < two64 -> from_bytes c (to_bytes c x ++ r) = Some x.
 Proof. exact (fun T P c x r => bytes_rt_trailing P c x r). Qed.
+Print Assumptions C16_decode_ignores_trailing.
 
 (* ---------- validity times ---------- *)
 
@@ -144,11 +178,13 @@ Proof.
   exact (fun x H => conj (emit_shape x H) (conj (emit_parse x H) (conj eq_refl (conj eq_refl
           (conj (to_utc_trunc_instant x) (emit_trunc x)))))).
 Qed.
+Print Assumptions C16_time.
 (* the calendar arithmetic behind it, for all of Z *)
 Theorem C16_time_calendar :
   (forall z, let '(y, m, d) := civil_from_days z in days_from_civil y m d = z /\ valid_date y m d = true) /\
   (forall y m d, valid_date y m d = true -> civil_from_days (days_from_civil y m d) = (y, m, d)).
 Proof. exact (conj cfd_sound cfd_dfc). Qed.
+Print Assumptions C16_time_calendar.
 
 (* ValidityInfo / Mso over the whole domain (any offset, any fraction): decoding the encoding gives
    the value with its times normalised, the normal form is in the exact domain (so it round-trips
@@ -158,11 +194,13 @@ Theorem C16_rt_ValidityInfo_norm : forall v, validity_wf v ->
   validity_exact (validity_norm v) /\
   enc c_validity_info (validity_norm v) = enc c_validity_info v.
 Proof. exact (fun v H => conj (validity_rt_norm v H) (conj (validity_norm_exact v H) (validity_norm_enc v))). Qed.
+Print Assumptions C16_rt_ValidityInfo_norm.
 Theorem C16_rt_Mso_norm : forall tb, tables_ok tb -> forall m, mso_wf m ->
   dec (c_mso tb) (enc (c_mso tb) m) = Some (mso_norm m) /\
   mso_exact (mso_norm m) /\
   enc (c_mso tb) (mso_norm m) = enc (c_mso tb) m.
 Proof. exact (fun tb Ht m H => conj (mso_rt_norm tb Ht m H) (conj (mso_norm_exact m H) (mso_norm_enc tb m))). Qed.
+Print Assumptions C16_rt_Mso_norm.
 
 (* encoding a ValidityInfo never panics (the outcome type has a Panic constructor for the site that
    used to: OffsetDateTime::to_offset): it succeeds, with the encoding the round-trip theorems are
@@ -171,11 +209,14 @@ Theorem C16_validity_encode_total : forall v,
   (validity_encodable v = true /\ validity_encode v = EncOk (validity_to_cbor v)) \/
   (validity_encodable v = false /\ exists e, validity_encode v = EncErr e).
 Proof. exact validity_encode_total. Qed.
+Print Assumptions C16_validity_encode_total.
 Theorem C16_validity_encode_no_panic : forall v, validity_encode v <> EncPanic.
 Proof. exact validity_encode_no_panic. Qed.
+Print Assumptions C16_validity_encode_no_panic.
 (* the documented domain is encodable *)
 Theorem C16_validity_wf_encodable : forall v, validity_wf v -> validity_encodable v = true.
 Proof. exact validity_wf_encodable. Qed.
+Print Assumptions C16_validity_wf_encodable.
 
 (* ---------- CoseKey <-> JWK ---------- *)
 
@@ -188,6 +229,7 @@ Theorem C16_cose_jwk : forall tb, tables_ok tb -> forall k,
   | _ => exists j, cose_to_jwk tb k = Some j /\ jwk_to_cose tb j = Some k
   end.
 Proof. exact cose_jwk_rt. Qed.
+Print Assumptions C16_cose_jwk.
 
 (* ---------- the hypotheses are inhabited ---------- *)
 
